@@ -1,14 +1,23 @@
 /-
 C14 — SINEX blocks are parsed column-exactly and matrices are rebuilt symmetric.
-(first instalment: table obligations; extended below as the proofs land)
+
+Property theorems only.  They are about the executable model `Model/Sinex.lean` /
+`Model/SinexFile.lean`, instantiated at the tables regenerated from the source on every run
+(`Generated/SinexBlocks.lean`) and compared with the independently typed standard
+(`Spec/Sinex202.lean`).  `np.genfromtxt` itself is modelled (see the model's header); that the
+model is the code is re-established by the correspondence run of `harness/c14.py`.
 -/
 import Midgard.Model.SinexFile
 import Midgard.Generated.SinexBlocks
 import Midgard.Spec.Sinex202
 import Midgard.Proofs.FixedCol
+import Midgard.Proofs.Decimal
 
 namespace Midgard.Props.C14
-open Midgard.Sinex Midgard.Generated.Sinex Midgard.FixedCol
+open Midgard.Sinex Midgard.Generated.Sinex Midgard.FixedCol Midgard.Text Midgard.Decimal
+open Midgard.Spec.Sinex (SField SBlock Kind)
+
+/-! ## 1. Obligations on the regenerated tables (`decide`) -/
 
 /-- start columns strictly ascending, first one after the record's lead character -/
 def ascending : List Nat → Bool
@@ -18,12 +27,342 @@ def ascending : List Nat → Bool
 def startsOk (fs : List FieldDef) : Bool :=
   ascending (fs.map (·.start)) && decide (1 ≤ (fs.map (·.start)).headD 1)
 
+/-- the SINEX (80-column) parsers: everything but sinex_tms -/
+def snxBlocks : List BlockDef := baseBlocks ++ siteBlocks ++ discBlocks ++ eventsBlocks ++ troBlocks
+def snxHeaders : List (List FieldDef) := [baseHeader, siteHeader, discHeader, eventsHeader, troHeader]
+
 /-- every table of every parser has strictly ascending start columns (so that
-`np.diff([0] + starts + [81])` has no negative width) -/
+`np.diff([0] + starts + [81])` has no negative or zero width) -/
 theorem starts_sorted : (allBlocks.all fun b => startsOk b.fields) = true ∧
     (allHeaders.all startsOk) = true := by
   decide +kernel
 
+/-- every field of the 80-column parsers begins inside the record (`start ≤ 80`), so the layout cut
+by `layoutOf · 81` is sorted: the hypothesis of `block_roundtrip` holds for each of these tables -/
+theorem within_80 : (snxBlocks.all fun b => Sorted (layoutOf b.fields 81)) = true ∧
+    (snxHeaders.all fun h => Sorted (layoutOf h 81)) = true ∧
+    (snxBlocks.all fun b => b.fields.all fun f => decide (f.start ≤ 80)) = true := by
+  decide +kernel
+
+def nodup : List (List Nat) → Bool
+  | [] => true
+  | a :: rest => !rest.contains a && nodup rest
+
+/-- the validated name, as code points (`validName` is `String.ofList` of exactly this) -/
+def vcodes (n : String) : List Nat := validCodes (nameCodes n)
+
+/-- field names stay distinct after NumPy's name validation (otherwise genfromtxt renames silently) -/
+theorem names_unique : (allBlocks.all fun b => nodup ((kept b.fields).map fun f => vcodes f.name)) = true ∧
+    (allHeaders.all fun h => nodup ((kept h).map fun f => vcodes f.name)) = true := by
+  decide +kernel
+
+/-- no table asks for the `dms2rad` converter (the only one the model does not evaluate) and no
+table drops a column (`dtype=None`) -/
+theorem converters_modelled :
+    (allBlocks.all fun b => b.fields.all fun f => f.conv ≠ .dms2rad && f.dtype ≠ .skip) = true := by
+  decide +kernel
+
+/-- the conversion the code declares for a field agrees with the kind of value the standard puts
+there; for text the dtype is at least as wide as the standard's field (**no truncation**) -/
+def kindOk (k : Kind) (width : Nat) (f : FieldDef) : Bool :=
+  match k, f.dtype, f.conv with
+  | .text, .u n, .none => decide (width ≤ n)
+  | .text, .u n, .utf8 => decide (width ≤ n)
+  | .int, .i8, .none => true
+  | .flt, .f8, .none => true
+  | .exp, .f8, .exponent => true
+  | .dms, .f8, .dms2deg => true
+  | .epoch, .obj, .epoch => true
+  | .epoch4, .obj, .yyyydddsssss => true
+  | .tup, .obj, .tuple => true
+  | _, _, _ => false
+
+/-- a standard field lies inside the columns the code cuts for the field of the same (validated)
+name, with the declared conversion (`stop` = start of the code's next field, or the record end) -/
+def fieldCovered (f : FieldDef) (stop : Nat) (sf : SField) : Bool :=
+  (vcodes f.name == nameCodes sf.name) && decide (f.start ≤ sf.start) && decide (sf.start + sf.width ≤ stop) &&
+    decide (sf.start + sf.width ≤ 80) && kindOk sf.kind sf.width f
+
+/-- code fields and standard fields correspond position by position -/
+def fieldsCovered : List FieldDef → Nat → List SField → Bool
+  | [], _, [] => true
+  | [f], total, [sf] => fieldCovered f total sf
+  | f :: g :: fs, total, sf :: sfs => fieldCovered f g.start sf && fieldsCovered (g :: fs) total sfs
+  | _, _, _ => false
+
+def blockCovered (code : List BlockDef) (sb : SBlock) : Bool :=
+  match code.find? (·.marker = sb.marker) with
+  | Option.none => false
+  | some b => fieldsCovered b.fields 81 sb.fields
+
+/-- **columns = standard**: for every block of SINEX 2.02 (and the two IGS extensions, and the
+SINEX_TRO blocks) the code cuts, for each standard field, a column range that contains the
+standard's columns and nothing of a neighbouring field, applies the conversion the standard's
+field kind calls for, and (text) does not truncate. Same for the header line. -/
+theorem cols_cover_spec :
+    (Midgard.Spec.Sinex.official.all (blockCovered baseBlocks)) = true ∧
+    (Midgard.Spec.Sinex.unofficial.all (blockCovered baseBlocks)) = true ∧
+    (Midgard.Spec.Sinex.tro.all (blockCovered troBlocks)) = true ∧
+    fieldsCovered baseHeader 81 Midgard.Spec.Sinex.header = true := by
+  decide +kernel
+
+/-- the block tables the site / discontinuities / events parsers use are the base-class tables of
+the same marker (so `cols_cover_spec` speaks about them too), and all five parsers share the
+base header except sinex_tms -/
+theorem concrete_tables_are_base :
+    ((siteBlocks ++ discBlocks ++ eventsBlocks).all fun b =>
+      (baseBlocks.find? (·.marker = b.marker)).map (·.fields) = some b.fields) = true ∧
+    siteHeader = baseHeader ∧ discHeader = baseHeader ∧ eventsHeader = baseHeader ∧ troHeader = baseHeader := by
+  decide +kernel
+
+/-! ## 2. Generic block round trip -/
+
+/-- Reading a rendered record: whatever clean texts are placed in the columns of a (sorted) table
+come back, field by field — also after the record lost its trailing blanks. -/
+theorem block_roundtrip (fs : List FieldDef) (total : Nat) (cells : List (Align × Str))
+    (hs : Sorted (layoutOf fs total) = true) (hf : Fits (layoutOf fs total) cells = true) :
+    cutLine fs total (renderA (layoutOf fs total) cells) = cells.map (·.2) ∧
+    cutLine fs total (rstrip (renderA (layoutOf fs total) cells)) = cells.map (·.2) := by
+  constructor
+  · exact slice_renderA _ _ hs hf
+  · exact slice_renderA_rstrip _ _ hs hf
+
+/-- … and each returned value is the declared conversion of exactly that text. -/
+theorem parseLine_roundtrip (fs : List FieldDef) (total : Nat) (cells : List (Align × Str))
+    (hs : Sorted (layoutOf fs total) = true) (hf : Fits (layoutOf fs total) cells = true) :
+    parseLine fs total (renderA (layoutOf fs total) cells) =
+      ((fs.zip (cells.map (·.2))).filter (·.1.dtype ≠ .skip)).map
+        fun (fd, t) => (validName fd.name, convertCell fd t) := by
+  unfold parseLine
+  rw [(block_roundtrip fs total cells hs hf).1]
+
+/-- text fields: stripped by construction, truncated only beyond the dtype width -/
+theorem text_field (name : String) (start k : Nat) (t : Str) (h : t.length ≤ k) :
+    convertCell ⟨name, start, .u k, .none⟩ t = .str t := by
+  simp [convertCell, List.take_of_length_le h]
+
+/-! ## 3. Converters -/
+
+/-- YY:DDD:SSSSS as printed by a conforming writer -/
+def epochText (yy ddd s : Nat) : Str :=
+  fixedDigits 2 yy ++ ':' :: fixedDigits 3 ddd ++ ':' :: fixedDigits 5 s
+
+theorem fixedDigits2 (n : Nat) : fixedDigits 2 n = [digitChar (n / 10), digitChar n] := rfl
+theorem fixedDigits3 (n : Nat) : fixedDigits 3 n = [digitChar (n / 10 / 10), digitChar (n / 10), digitChar n] := rfl
+theorem fixedDigits5 (n : Nat) : fixedDigits 5 n =
+    [digitChar (n / 10 / 10 / 10 / 10), digitChar (n / 10 / 10 / 10), digitChar (n / 10 / 10), digitChar (n / 10),
+     digitChar n] := rfl
+
+theorem parseDoy_fixed (d : Nat) (h1 : 1 ≤ d) (h2 : d ≤ 366) : parseDoy? (fixedDigits 3 d) = some d := by
+  unfold parseDoy?
+  have hv : digitsVal (fixedDigits 3 d) = d := by rw [digitsVal_fixedDigits]; omega
+  simp [length_fixedDigits, allDigits_fixedDigits, hv, h1, h2]
+
+theorem threeZero_iff (d : Nat) (h : d < 1000) : fixedDigits 3 d = ['0', '0', '0'] → d = 0 := by
+  intro he
+  have := digitsVal_fixedDigits 3 d
+  rw [he] at this
+  have h0 : digitsVal ['0', '0', '0'] = 0 := by decide
+  rw [h0] at this
+  omega
+
+/-- **epoch pivot**: a well-formed `YY:DDD:SSSSS` is day `DDD` of the year 20YY (`YY ≤ 50`) or 19YY
+(`YY > 50`), plus `SSSSS` seconds -/
+theorem epoch_pivot (yy ddd s : Nat) (hy : yy < 100) (hd1 : 1 ≤ ddd) (hd2 : ddd ≤ 366) (hs : s < 86400) :
+    convertEpoch? (epochText yy ddd s) =
+      some (.dt (jan1 (if yy ≤ 50 then 2000 + yy else 1900 + yy) + ddd - 1) s) := by
+  have hshape : epochText yy ddd s =
+      [digitChar (yy / 10), digitChar yy, ':', digitChar (ddd / 10 / 10), digitChar (ddd / 10), digitChar ddd, ':',
+       digitChar (s / 10 / 10 / 10 / 10), digitChar (s / 10 / 10 / 10), digitChar (s / 10 / 10),
+       digitChar (s / 10), digitChar s] := rfl
+  have htake2 : (epochText yy ddd s).take 2 = fixedDigits 2 yy := by rw [hshape]; rfl
+  have htake6 : (epochText yy ddd s).take 6 = fixedDigits 2 yy ++ ':' :: fixedDigits 3 ddd := by rw [hshape]; rfl
+  have hslice : Text.slice 3 6 (epochText yy ddd s) = fixedDigits 3 ddd := by rw [hshape]; rfl
+  have hdrop7 : (epochText yy ddd s).drop 7 = fixedDigits 5 s := by rw [hshape]; rfl
+  have hyy : parseInt? (fixedDigits 2 yy) = some ((yy : Nat) : Int) := by
+    rw [parseInt_fixedDigits (by decide)]; congr 2; omega
+  have hss : parseInt? (fixedDigits 5 s) = some ((s : Nat) : Int) := by
+    rw [parseInt_fixedDigits (by decide)]; congr 2; omega
+  have hnz : ¬ (fixedDigits 3 ddd = ['0', '0', '0']) := fun he => by
+    have := threeZero_iff ddd (by omega) he; omega
+  unfold convertEpoch?
+  rw [htake2, hyy]
+  simp only [hslice, hnz, and_false, if_false, htake6, hdrop7, hss]
+  -- the century prefix followed by the two year digits is a four-digit year
+  by_cases hc : ((yy : Nat) : Int) > 50
+  · have hle : ¬ yy ≤ 50 := by omega
+    simp only [hc, if_true, hle, if_false]
+    have hstr : strptimeYj? (['1', '9'] ++ (fixedDigits 2 yy ++ ':' :: fixedDigits 3 ddd)) =
+        some (jan1 (1900 + yy) + ddd - 1) := by
+      unfold strptimeYj?
+      have h4 : (['1', '9'] ++ (fixedDigits 2 yy ++ ':' :: fixedDigits 3 ddd)).take 4 =
+          ['1', '9', digitChar (yy / 10), digitChar yy] := rfl
+      have hd4 : (['1', '9'] ++ (fixedDigits 2 yy ++ ':' :: fixedDigits 3 ddd)).drop 4 = ':' :: fixedDigits 3 ddd := rfl
+      have hall : allDigits ['1', '9', digitChar (yy / 10), digitChar yy] = true := by
+        simp [allDigits, isDigit_digitChar]; decide
+      have hval : digitsVal ['1', '9', digitChar (yy / 10), digitChar yy] = 1900 + yy := by
+        show ((((0 * 10 + digitVal '1') * 10 + digitVal '9') * 10 + digitVal (digitChar (yy / 10))) * 10
+          + digitVal (digitChar yy)) = 1900 + yy
+        rw [digitVal_digitChar, digitVal_digitChar]
+        have : digitVal '1' = 1 := by decide
+        have : digitVal '9' = 9 := by decide
+        omega
+      rw [h4, hd4]
+      simp only [List.length_cons, List.length_nil, hall, parseDoy_fixed ddd hd1 hd2, hval]
+      have h1 : (1 : Int) ≤ 1900 + (yy : Int) := by omega
+      simp [h1]
+    rw [hstr]
+    have e1 : ((s : Nat) : Int) / 86400 = 0 := by omega
+    have e2 : ((s : Nat) : Int) % 86400 = s := by omega
+    simp only [addSeconds, e1, e2, Int.add_zero]
+  · have hle : yy ≤ 50 := by omega
+    simp only [hc, if_false, hle, if_true]
+    have hstr : strptimeYj? (['2', '0'] ++ (fixedDigits 2 yy ++ ':' :: fixedDigits 3 ddd)) =
+        some (jan1 (2000 + yy) + ddd - 1) := by
+      unfold strptimeYj?
+      have h4 : (['2', '0'] ++ (fixedDigits 2 yy ++ ':' :: fixedDigits 3 ddd)).take 4 =
+          ['2', '0', digitChar (yy / 10), digitChar yy] := rfl
+      have hd4 : (['2', '0'] ++ (fixedDigits 2 yy ++ ':' :: fixedDigits 3 ddd)).drop 4 = ':' :: fixedDigits 3 ddd := rfl
+      have hall : allDigits ['2', '0', digitChar (yy / 10), digitChar yy] = true := by
+        simp [allDigits, isDigit_digitChar]; decide
+      have hval : digitsVal ['2', '0', digitChar (yy / 10), digitChar yy] = 2000 + yy := by
+        show ((((0 * 10 + digitVal '2') * 10 + digitVal '0') * 10 + digitVal (digitChar (yy / 10))) * 10
+          + digitVal (digitChar yy)) = 2000 + yy
+        rw [digitVal_digitChar, digitVal_digitChar]
+        have : digitVal '2' = 2 := by decide
+        have : digitVal '0' = 0 := by decide
+        omega
+      rw [h4, hd4]
+      simp only [List.length_cons, List.length_nil, hall, parseDoy_fixed ddd hd1 hd2, hval]
+      have h1 : (1 : Int) ≤ 2000 + (yy : Int) := by omega
+      simp [h1]
+    rw [hstr]
+    have e1 : ((s : Nat) : Int) / 86400 = 0 := by omega
+    have e2 : ((s : Nat) : Int) % 86400 = s := by omega
+    simp only [addSeconds, e1, e2, Int.add_zero]
+
+/-- **open epoch**: `00:000:00000` has no date (`None`) -/
+theorem epoch_open : convertCell ⟨"t", 0, .obj, .epoch⟩ "00:000:00000".toList = .none := by
+  decide +kernel
+
+/-- … while day 000 of any other epoch is read as day 001 (what the code does, documented there) -/
+example : convertEpoch? "95:000:00000".toList = convertEpoch? "95:001:00000".toList := by decide +kernel
+
+/-- non-vacuity of `epoch_pivot`: both sides of the pivot -/
+example : convertEpoch? "50:001:00000".toList = some (.dt (jan1 2050) 0) ∧
+    convertEpoch? "51:366:86399".toList = some (.dt (jan1 1951 + 365) 86399) := by decide +kernel
+
+/-- **D exponents equal E exponents**: rewriting every `E` of a number as `D` does not change the value -/
+theorem exponent_D_eq_E (t : Str) : convertExponent (replaceChar 'E' 'D' t) = convertExponent t := by
+  unfold convertExponent
+  congr 1
+  simp only [replaceChar, List.map_map]
+  apply List.map_congr_left
+  intro c _
+  by_cases h : c = 'E'
+  · subst h; decide
+  · simp only [Function.comp, h, if_false]
+
+example : convertExponent "-.240960109141758D+07".toList = some (-2409601.09141758) := by decide +kernel
+
+/-- **dms keeps the sign of the degree part**, also for `-0` -/
+theorem dms_sign (neg : Bool) (d m s : Rat) (hd : 0 ≤ d ∨ neg = true) :
+    dmsValue neg d m s = (if neg then -1 else 1) * ((if d < 0 then -d else d) + m / 60 + s / 3600) := by
+  unfold dmsValue
+  cases neg <;> simp <;> grind
+
+/-- the degree text decides the sign: `-0 30 00.0` is −0.5° -/
+example : convertDms2deg "-0 30 00.0".toList = some (-1 / 2) ∧
+    convertDms2deg " 0 30 00.0".toList = some (1 / 2) ∧
+    convertDms2deg "-12 30 36.0".toList = some (-1251 / 100) := by decide +kernel
+
+/-! ## 4. Matrices -/
+
+theorem get_symmetrize (t : Tri) (n : Nat) (M : Matrix) (i j : Nat) (hi : i < n) (hj : j < n) :
+    (symmetrize t n M).get i j =
+      match t with
+      | .lower => if j ≤ i then M.get i j else M.get j i
+      | .upper => if i ≤ j then M.get i j else M.get j i
+      | .unspecified => if i = j then M.get i i else M.get i j + M.get j i := by
+  cases t <;> simp [symmetrize, Matrix.get, hi, hj, List.getD_eq_getElem?_getD]
+
+/-- **the rebuilt matrix is symmetric**, whichever triangle the block gives -/
+theorem matrix_symm (t : Tri) (n : Nat) (M : Matrix) (i j : Nat) (hi : i < n) (hj : j < n) :
+    (symmetrize t n M).get i j = (symmetrize t n M).get j i := by
+  rw [get_symmetrize t n M i j hi hj, get_symmetrize t n M j i hj hi]
+  cases t
+  · simp only
+    by_cases h1 : j ≤ i <;> by_cases h2 : i ≤ j <;> simp [h1, h2]
+    · have : i = j := by omega
+      subst this; rfl
+    · omega
+  · simp only
+    by_cases h1 : j ≤ i <;> by_cases h2 : i ≤ j <;> simp [h1, h2]
+    · have : i = j := by omega
+      subst this; rfl
+    · omega
+  · simp only
+    by_cases h : i = j
+    · subst h; rfl
+    · have h' : ¬ j = i := fun e => h e.symm
+      simp only [h, h', if_false]
+      grind
+
+/-- the size is `n × n` -/
+theorem matrix_shape (t : Tri) (n : Nat) (M : Matrix) :
+    (symmetrize t n M).length = n ∧ ∀ r ∈ symmetrize t n M, r.length = n := by
+  constructor
+  · simp [symmetrize]
+  · intro r hr
+    simp only [symmetrize, List.mem_map, List.mem_range] at hr
+    obtain ⟨i, _, rfl⟩ := hr
+    simp
+
+/-- lower form: the stored triangle is taken as listed, the other one mirrored -/
+theorem matrix_lower_entries (n : Nat) (M : Matrix) (i j : Nat) (hi : i < n) (hj : j < n) (h : j ≤ i) :
+    (symmetrize .lower n M).get i j = M.get i j ∧ (symmetrize .lower n M).get j i = M.get i j := by
+  rw [get_symmetrize _ n M i j hi hj, get_symmetrize _ n M j i hj hi]
+  simp only [h, if_true]
+  by_cases h2 : i ≤ j
+  · have : i = j := by omega
+    subst this; simp
+  · simp [h2]
+
+theorem matrix_upper_entries (n : Nat) (M : Matrix) (i j : Nat) (hi : i < n) (hj : j < n) (h : i ≤ j) :
+    (symmetrize .upper n M).get i j = M.get i j ∧ (symmetrize .upper n M).get j i = M.get i j := by
+  rw [get_symmetrize _ n M i j hi hj, get_symmetrize _ n M j i hj hi]
+  simp only [h, if_true]
+  by_cases h2 : j ≤ i
+  · have : i = j := by omega
+    subst this; simp
+  · simp [h2]
+
+/-- a concrete block with omitted elements: upper form, n = 3, `(1,1..3)` and `(2,3)` listed -/
+example : matrixOf .upper (some 3) [⟨1, 1, [some 1.5, some 2.5, some 3.5]⟩, ⟨2, 3, [some 4.5, Option.none, Option.none]⟩] =
+    some [[1.5, 2.5, 3.5], [2.5, 0, 4.5], [3.5, 4.5, 0]] := by decide +kernel
+
 end Midgard.Props.C14
 
 #print axioms Midgard.Props.C14.starts_sorted
+#print axioms Midgard.Props.C14.within_80
+#print axioms Midgard.Props.C14.names_unique
+#print axioms Midgard.Props.C14.converters_modelled
+#print axioms Midgard.Props.C14.cols_cover_spec
+#print axioms Midgard.Props.C14.concrete_tables_are_base
+#print axioms Midgard.Props.C14.block_roundtrip
+#print axioms Midgard.Props.C14.parseLine_roundtrip
+#print axioms Midgard.Props.C14.text_field
+#print axioms Midgard.Props.C14.fixedDigits2
+#print axioms Midgard.Props.C14.fixedDigits3
+#print axioms Midgard.Props.C14.fixedDigits5
+#print axioms Midgard.Props.C14.parseDoy_fixed
+#print axioms Midgard.Props.C14.threeZero_iff
+#print axioms Midgard.Props.C14.epoch_pivot
+#print axioms Midgard.Props.C14.epoch_open
+#print axioms Midgard.Props.C14.exponent_D_eq_E
+#print axioms Midgard.Props.C14.dms_sign
+#print axioms Midgard.Props.C14.get_symmetrize
+#print axioms Midgard.Props.C14.matrix_symm
+#print axioms Midgard.Props.C14.matrix_shape
+#print axioms Midgard.Props.C14.matrix_lower_entries
+#print axioms Midgard.Props.C14.matrix_upper_entries
